@@ -36,4 +36,6 @@ func init() {
 		"\tif session.Hijacked() {\n\t\treturn nil\n\t}\n\n\t// perform the HTTP roundtrip\n\tres, err := p.roundTrip(ctx, req)",
 		"\tif hj := session.Hijacked(); !hj {\n\t} else {\n\t\treturn nil\n\t}\n\n\t// perform the HTTP roundtrip\n\tres, err := p.roundTrip(ctx, req)")
 	mut("C02", "api-request-clears-skip", "context.go", "\tctx.apiRequest = true\n", "\tctx.apiRequest = true\n\tctx.skipRoundTrip = false\n", "C02.R5", "does not wipe")
+	mut("C02", "session-unlock-not-deferred", "context.go", "func (s *Session) Hijack() (net.Conn, *bufio.ReadWriter, error) {\n\ts.mu.Lock()\n\tdefer s.mu.Unlock()\n", "func (s *Session) Hijack() (net.Conn, *bufio.ReadWriter, error) {\n\ts.mu.Lock()\n\ts.mu.Unlock()\n", "C02.R3", "Session.hijacked")
+	mut("C02", "unlink-keeps-entry", "context.go", "\tdelete(ctxs, req)\n", "\t_ = req\n", "C02.R3", "unlink removes")
 }
